@@ -15,7 +15,7 @@ func escDoc(i int, natoms, mask int) *JV {
 	v1, s1 := escString("e.s1", natoms, mask)
 	switch i {
 	case 0: // string value at top level and inside an object
-		v2, s2 := escString("e.s2", 1, mask)
+		v2, s2 := escString("e.s2", 1, mask&(1|1<<4|1<<10)|1) // the second string only needs a few kinds
 		return jObj().with("a", jStrSp(v1, s1)).with("o", jObj().with("s", jStrSp(v2, s2)).with("n", symNum("e.n0")))
 	case 1: // escape-alphabet member name (top level and nested)
 		o := jObj()
